@@ -530,4 +530,127 @@ theorem lastNonceOf_setLast (s : C03.AState η) (o n : Nat) : C03.lastNonceOf (C
 
 end C03
 
+/-! ### the voted attestation after the step -/
+
+theorem findAtt_setAtt_self (l : List C01.Att) (a : C01.Att) : C01.findAtt (C01.setAtt l a) a.nonce a.hash = some a := by
+  induction l with
+  | nil => simp [C01.setAtt, C01.findAtt]
+  | cons b r ih =>
+    by_cases h : b.nonce = a.nonce ∧ b.hash = a.hash
+    · simp [C01.setAtt, h, C01.findAtt]
+    · simp only [C01.setAtt, h, if_false, C01.findAtt]
+      exact ih
+
+theorem findAtt_filter (l : List C01.Att) (p : C01.Att → Bool) (n h : Nat) (a : C01.Att)
+    (hf : C01.findAtt l n h = some a) (hp : ∀ b, b.nonce = n → p b = true) : C01.findAtt (l.filter p) n h = some a := by
+  induction l with
+  | nil => simp [C01.findAtt] at hf
+  | cons b r ih =>
+    by_cases hk : b.nonce = n ∧ b.hash = h
+    · simp only [C01.findAtt, hk, and_self, if_true] at hf
+      have : p b = true := hp b hk.1
+      simp only [List.filter_cons, this, if_true, C01.findAtt, hk, and_self]
+      exact hf
+    · simp only [C01.findAtt, hk, if_false] at hf
+      by_cases hpb : p b = true
+      · simp only [List.filter_cons, hpb, if_true, C01.findAtt, hk, if_false]; exact ih hf
+      · simp only [List.filter_cons, hpb]; exact ih hf
+
+theorem findAtt_prune (lo : Nat) (l : List C01.Att) (n h : Nat) (a : C01.Att) (hf : C01.findAtt l n h = some a) (hn : n = lo) :
+    C01.findAtt (C01.prune lo l) n h = some a := by
+  unfold C01.prune
+  split
+  · exact hf
+  · rename_i hgt
+    refine findAtt_filter l _ n h a hf ?_
+    intro b hb
+    have : 0 < FxVerif.Gen.C01.maxKeepEventSize := by decide
+    simp; omega
+
+/-- the attestation the vote was filed under, after `attest`: the vote is appended, and it is observed iff it was before or the
+vote made the event take effect now (pruning never removes the attestation of the nonce just observed) -/
+theorem attest_voted_att (s : C01.State) (o n h : Nat) (kind : C01.Kind) :
+    ∃ a, C01.findAtt (C01.attest s o n h kind).atts n h = some a ∧ a.votes = (attView s n h).1 ++ [o] ∧
+      a.observed = ((attView s n h).2 || C01.observesNow s o n h) := by
+  obtain ⟨hvv, hvo⟩ := voteAtt_view s o n h
+  obtain ⟨hk1, hk2⟩ := voteAtt_key s o n h
+  have hmo : FxVerif.Gen.C01.observeMarksObserved = true := by decide
+  have hso : FxVerif.Gen.C01.observeSetsLastObserved = true := by decide
+  cases hO : C01.observesNow s o n h
+  · refine ⟨C01.voteAtt s o n h, ?_, hvv, by rw [hvo]; simp⟩
+    have hfs := findAtt_setAtt_self s.atts (C01.voteAtt s o n h)
+    rw [hk1, hk2] at hfs
+    unfold C01.observesNow at hO
+    unfold C01.attest
+    simp only []
+    split
+    · rename_i hc
+      have ht : C01.tally s.oracles (C01.required s.lastTotalPower) (C01.voteAtt s o n h).votes 0 = false := by simpa [hc] using hO
+      rw [tryAttest_false _ _ _ (by simpa using ht)]
+      exact hfs
+    · exact hfs
+  · refine ⟨{ C01.voteAtt s o n h with observed := true }, ?_, hvv, by simp⟩
+    unfold C01.observesNow at hO
+    have hc : C01.tallyCond s (C01.voteAtt s o n h) n = true := by
+      cases hx : C01.tallyCond s (C01.voteAtt s o n h) n <;> simp [hx] at hO ⊢
+    have ht : C01.tally s.oracles (C01.required s.lastTotalPower) (C01.voteAtt s o n h).votes 0 = true := by simpa [hc] using hO
+    unfold C01.attest
+    simp only [hc, if_true]
+    have hfs := findAtt_setAtt_self (C01.setAtt s.atts (C01.voteAtt s o n h)) { C01.voteAtt s o n h with observed := true }
+    simp only [hk1, hk2] at hfs
+    have hlo : (if FxVerif.Gen.C01.observeSetsLastObserved = true then (C01.voteAtt s o n h).nonce else s.lastObserved) = n := by
+      simp [hso, hk1]
+    simp only [C01.tryAttest, ht, if_true, hmo, hso]
+    cases kind <;> simp only [hk1, hk2] <;> exact findAtt_prune _ _ n h _ hfs rfl
+
+section C03b
+variable {η : Type} [DecidableEq η]
+
+theorem getAtt_setAtt_self (l : List (C03.Att η)) (a : C03.Att η) : C03.getAtt (C03.setAtt l a) a.nonce a.hash = some a := by
+  simp [C03.getAtt, C03.setAtt, C03.sameKey, List.find?]
+
+theorem attFor_key (key : C03.AnyClaim → η) (s : C03.AState η) (c : C03.AnyClaim) :
+    (C03.attFor key s c).nonce = c.nonce ∧ (C03.attFor key s c).hash = key c := by
+  unfold C03.attFor C03.getAtt
+  cases hf : s.atts.find? (C03.sameKey c.nonce (key c)) with
+  | none => exact ⟨rfl, rfl⟩
+  | some a =>
+    have := List.find?_some hf
+    simp only [C03.sameKey, Bool.and_eq_true, beq_iff_eq] at this
+    exact ⟨this.1, this.2⟩
+
+/-- the attestation the vote was filed under, after an accepted `vote` of the C03 model -/
+theorem vote_voted_att (key : C03.AnyClaim → η) (le : η → η → Bool) (s : C03.AState η) (o : Nat) (c : C03.AnyClaim) (hp : Bool)
+    (hok : (C03.vote key le s o c hp).2 = .ok) :
+    ∃ a, C03.getAtt (C03.vote key le s o c hp).1.atts c.nonce (key c) = some a ∧
+      a.votes.map (·.1) = (C03.attFor key s c).votes.map (·.1) ++ [o] ∧
+      a.observed = ((C03.attFor key s c).observed || observes3 key s o c) := by
+  obtain ⟨hk1, hk2⟩ := attFor_key key s c
+  have hvk1 : (C03.votedAtt key s o c).nonce = c.nonce := hk1
+  have hvk2 : (C03.votedAtt key s o c).hash = key c := hk2
+  have hvv : (C03.votedAtt key s o c).votes.map (·.1) = (C03.attFor key s c).votes.map (·.1) ++ [o] := by
+    simp [C03.votedAtt, C03.withVote]
+  unfold C03.vote C03.voteWith at hok ⊢
+  split at hok
+  · cases hok
+  · split at hok
+    · cases hok
+    · rename_i hl hn
+      simp only [hl, hn, if_false]
+      rw [hit_eval] at hok ⊢
+      cases hO : observes3 key s o c
+      · simp only [hO, Bool.false_eq_true, if_false]
+        refine ⟨C03.votedAtt key s o c, ?_, hvv, by simp [C03.votedAtt, C03.withVote]⟩
+        have := getAtt_setAtt_self s.atts (C03.votedAtt key s o c)
+        rw [hvk1, hvk2] at this
+        exact this
+      · simp only [hO, if_true] at hok ⊢
+        cases hpb : hp
+        · simp only [Bool.false_eq_true, if_false]
+          refine ⟨{ C03.votedAtt key s o c with observed := true, nonce := c.nonce, hash := key c }, ?_, hvv, by simp⟩
+          exact getAtt_setAtt_self _ { C03.votedAtt key s o c with observed := true, nonce := c.nonce, hash := key c }
+        · rw [hpb] at hok; simp at hok
+
+end C03b
+
 end FxVerif.Proofs.C01Refine
